@@ -110,10 +110,50 @@ def _is_ctrlpoint(e, defs, depth=0):
     return False
 
 
+def _outside_family(ctx, fn, conjuncts):
+    """does the failure condition of an `__eq__` imply that the other operand is not an object of the family (shape,
+    closed curve, segment, point) that `==` is specified for?  conjuncts: [(test, polarity)] holding at the failure."""
+    if len(fn.params) < 2:
+        return False
+    other = fn.params[1]
+    if any(isinstance(n, ast.Name) and isinstance(n.ctx, ast.Store) and n.id == other for n in ast.walk(fn.node)):
+        return False
+    family = set(ctx.model.mro(fn.cls)) if fn.cls else set()      # the class and its ancestors: every in-family operand
+    #                                                               of == is an instance of the root of this chain
+    # shapes of every kind are comparable with each other; curves, segments and points only with their own class
+    root = "BaseShape" if "BaseShape" in family else fn.cls
+
+    def implies(e, pol):
+        if isinstance(e, ast.UnaryOp) and isinstance(e.op, ast.Not):
+            return implies(e.operand, not pol)
+        if isinstance(e, ast.BoolOp):
+            conj = isinstance(e.op, ast.And) == pol           # And holding / Or failing: every part known
+            return (any if conj else all)(implies(v, pol) for v in e.values)
+        if not pol and isinstance(e, ast.Call) and pat.is_name(e.func, "isinstance") and len(e.args) == 2 \
+                and pat.is_name(e.args[0], other):
+            c = e.args[1]
+            names = [c.id] if isinstance(c, ast.Name) else [x.id for x in c.elts if isinstance(x, ast.Name)] \
+                if isinstance(c, ast.Tuple) else []
+            if isinstance(c, ast.Attribute) and U(c) == f"{fn.params[0]}.__class__":
+                return root == fn.cls and not ctx.model.subclasses(fn.cls)
+            return root in names
+        return False
+    return any(implies(t, pol) for t, pol in conjuncts)
+
+
 def category(ctx, f):
     fn = ctx.model.funcs[f.q]
     params = set(fn.params)
     defs = pat.local_defs(fn)
+    if fn.name == "__eq__" and f.kind in ("assert", "raise") and fn.cls:
+        # in the comparison itself a failed test is harmless only when it says "the other operand is not one of us"
+        conj = list(f.path) + ([(f.cond, False)] if f.kind == "assert" else [])
+        if _outside_family(ctx, fn, conj):
+            return "type-check"
+        if f.kind == "raise":
+            return "raise:" + f.exc
+        if all(_is_typecheck(l) for l in _leaves(f.cond)):
+            return "data-assert"
     if f.kind == "assert":
         leaves = _leaves(f.cond)
         if len(_degree_receivers(f.cond)) >= 2:
@@ -510,4 +550,12 @@ def r07_7(ctx):
     return o
 
 
-RULES = [r07_1, r07_2, r07_4, r07_5, r07_6, r07_7, r07_8]
+def r07_9(ctx):
+    from rules import C10
+    o = C10.r10_1(ctx)
+    o.rule = "R07.9"
+    o.text = ("== never reads a box or a signed length cached before one of the operands was transformed in place (same analysis as R10.1)")
+    return o
+
+
+RULES = [r07_1, r07_2, r07_4, r07_5, r07_6, r07_7, r07_8, r07_9]
